@@ -87,15 +87,22 @@ def rich_doc(rng, variant: int, kind: str = "single", nfig: int = 2) -> dict:
         labels = (["Alpha-0", "Alpha-1", "Alpha-2"], ["Beta-0", "Beta-1", "Beta-2", "Beta-3"])[variant % 2]
         nrows = 52
         key = sorted(labels[i * len(labels) // nrows] for i in range(nrows))
-        cols = [["c0", "str", key], ["c1", "str", [rng.choice(LATEX_TEXTS + ["Drug A", "12.5"]) for _ in range(nrows)]],
-                ["c2", "str", [str((i * 7 + variant) % 23) for i in range(nrows)]]]
-        b = body(3)
-        b["page_by" if kind == "pageby" else "subline_by"] = ["c0"]
-        if kind == "pageby" and variant % 2:
+        inner = [f"{('S', 'T')[variant % 2]}{(i // (4 + variant)) % 3}" for i in range(nrows)]  # changes inside an outer group
+        cols = [["c0", "str", key], ["c1", "str", inner],
+                ["c2", "str", [rng.choice(LATEX_TEXTS + ["Drug A", "12.5"]) for _ in range(nrows)]],
+                ["c3", "str", [str((i * 7 + variant) % 23) for i in range(nrows)]]]
+        b = body(4)
+        if kind == "pageby":
+            b["page_by"] = ["c0", "c1"]  # nested keys: only the inner one changes at most boundaries
+        else:
+            b["subline_by"] = ["c0"]
+        if kind == "pageby" and variant % 2 and rng.random() < 0.3:
             b["new_page"] = True
+            b["pageby_row"] = "first_row"
         rec["page"]["nrow"] = (14, 17)[variant % 2]
         rec["dfs"], rec["bodies"] = [{"cols": cols}], [b]
-        rec["headers"] = [{"text": ["Group", "Term", "N"], "text_color": [[pals[0]]]}]
+        rec["headers"] = [{"text": ["Group", "Sub", "Term", "N"] if kind != "pageby" else ["Term", "N"],
+                           "text_color": [[pals[0]]]}]
         rec["kind"] = "single"
         return rec
     if kind == "figure":
